@@ -248,25 +248,79 @@ class Runner:
         return errs, inp
 
     valid_clause = None     # when set, replaces CL_VALID (used for one narrow family of tags)
+    bcount = 0
+
+    def writings(self, text, clause):
+        """the text itself, then writings of it with blanks added around its delimiters (blanks next to ',', '(' and ')'
+        and at both ends carry no meaning): all patterns for the delimiter clauses, one rotating pattern for every
+        third case of the other clauses"""
+        yield text, ""
+        if clause in (CL_EMPTY, CL_PARENS_D1):
+            pats = range(N_BLANK_PATTERNS)
+        else:
+            self.bcount += 1
+            if self.bcount % 3:
+                return
+            pats = [(self.bcount // 3) % N_BLANK_PATTERNS]
+        seen = {text}
+        for p in pats:
+            v = blank_variant(text, p)
+            if v not in seen:
+                seen.add(v)
+                yield v, " +blanks[%d]" % p
 
     def valid(self, text, clause=CL_VALID, phs=(False, True), rule="valid"):
         if clause == CL_VALID and self.valid_clause:
             clause = self.valid_clause
-        for ph in phs:
-            errs, inp = self._obs(text, ph, clause, rule)
-            if errs is not None:
-                self.w.check(errs == [], clause, inp, observed=errs, expected=[])
+        for txt, tag in self.writings(text, clause):
+            for ph in phs:
+                errs, inp = self._obs(txt, ph, clause, rule + tag)
+                if errs is not None:
+                    self.w.check(errs == [], clause, inp, observed=errs, expected=[])
 
     def invalid(self, text, rule, clause, phs=(False, True), any_of=None, also=None):
         want = [CODE[rule]] if any_of is None else [CODE[r] for r in any_of]
-        for ph in phs:
-            errs, inp = self._obs(text, ph, clause, rule)
-            if errs is not None:
-                exp = {"contains_one_of": want}
-                if also:
-                    exp["contains"] = CODE[also]
-                self.w.check(any(c in errs for c in want) and (not also or CODE[also] in errs), clause, inp, observed=errs,
-                             expected=exp)
+        for txt, tag in self.writings(text, clause):
+            for ph in phs:
+                errs, inp = self._obs(txt, ph, clause, rule + tag)
+                if errs is not None:
+                    exp = {"contains_one_of": want}
+                    if also:
+                        exp["contains"] = CODE[also]
+                    self.w.check(any(c in errs for c in want) and (not also or CODE[also] in errs), clause, inp,
+                                 observed=errs, expected=exp)
+
+
+N_BLANK_PATTERNS = 6
+
+
+def blank_variant(text, pattern):
+    """the same annotation with blanks added next to its delimiters.  0: after every delimiter, 1: before every
+    delimiter, 2: on both sides and at both ends, 3: two / three blanks on both sides, 4: ONLY between two adjacent
+    delimiters and before a leading / after a trailing delimiter (the places where an empty tag sits),
+    5: like 4 with two blanks, plus a leading and a trailing blank"""
+    toks = tokenize(text)
+    out = []
+    for k, (t, _) in enumerate(toks):
+        if t not in ("(", ")", ","):
+            out.append(t)
+            continue
+        prev_delim = k > 0 and toks[k - 1][0] in ("(", ")", ",")
+        if pattern == 0:
+            out.append(t + " ")
+        elif pattern == 1:
+            out.append(" " + t)
+        elif pattern == 2:
+            out.append(" " + t + " ")
+        elif pattern == 3:
+            out.append("  " + t + "   ")
+        else:
+            gap = " " if pattern == 4 else "  "
+            out.append((gap if (prev_delim or k == 0) else "") + t + (gap if k == len(toks) - 1 else ""))
+    body = "".join(out)
+    if pattern in (2, 5):
+        body = " " + body + " "
+    return body
 
 
 # =====================================================================================================
